@@ -671,9 +671,11 @@ func corrupt(kind string, rng *rand.Rand, req *http.Request, resp *http.Response
 	return out
 }
 
-func corruptingPeer(run *evid.Run, n int) {
+func corruptingPeer(run *evid.Run, n int, omitDigest bool) {
 	mem := ocimem.New()
-	h := ociserver.New(mem, nil)
+	// omitDigest: a registry that does not say what digest a tag resolved to (the client then works the
+	// digest out itself: from the body when it is small, with an extra HEAD request when it is large)
+	h := ociserver.New(mem, &ociserver.Options{OmitDigestFromTagGetResponse: omitDigest})
 	var mu sync.Mutex
 	var cur string
 	var crng *rand.Rand
@@ -691,6 +693,11 @@ func corruptingPeer(run *evid.Run, n int) {
 		content := genContent(rng, i%40)
 		if len(content) == 0 && i%4 != 0 {
 			content = []byte("corruptible")
+		}
+		if omitDigest && i%2 == 1 {
+			// beyond what the client is prepared to keep in memory
+			content = bytes.Repeat(append([]byte(fmt.Sprintf("large manifest %d ", i)), content...), 1+140*1024/(len(content)+20))
+			run.Count("corrupted_reads_large_content_without_digest_header", 1)
 		}
 		repo := fmt.Sprintf("cp/r%d", i%10)
 		dg := model.Digest(content)
@@ -1024,7 +1031,9 @@ func main() {
 		commitWithLateWrite(run, i, i%4 == 3)
 	}
 	run.FloorCounter("commits_with_late_write/commit_succeeded", 6)
-	corruptingPeer(run, run.N(700, 20000))
+	corruptingPeer(run, run.N(700, 20000), false)
+	corruptingPeer(run, run.N(120, 3000), true)
+	run.FloorCounter("corrupted_reads_large_content_without_digest_header", 50)
 	rounds := run.N(30, 600)
 	for r := 0; r < rounds; r++ {
 		concurrentPhase(run, r, []string{"mem", "http", "unify", "http-loopback", "http(unify)", "sub"}[r%6])
